@@ -27,7 +27,8 @@ fn ctx_probe(interp: &mut Interp, ctx: ContextID, _: &[Value]) -> MoltResult {
     Ok(Value::from(100 + d.id))
 }
 
-/// all concrete operations: ("add" name tag) ("addctx" name ctx) ("proc" name) ("rename" a b) ("remove" name)
+/// all concrete operations: ("add" name tag) ("addctx" name ctx) ("proc" name) ("badproc" name: rejected definition)
+/// ("selfdef" name: a procedure redefining itself, called twice in a row) ("rename" a b) ("remove" name)
 pub fn all_ops() -> Vec<Term> {
     let mut v = Vec::new();
     for (i, n) in NAMES.iter().enumerate() {
@@ -36,6 +37,8 @@ pub fn all_ops() -> Vec<Term> {
             v.push(tag("addctx", vec![ts(n), ti(c)]));
         }
         v.push(tag("proc", vec![ts(n)]));
+        v.push(tag("badproc", vec![ts(n)]));
+        v.push(tag("selfdef", vec![ts(n)]));
         v.push(tag("remove", vec![ts(n)]));
         for m in NAMES.iter() {
             v.push(tag("rename", vec![ts(n), ts(m)]));
@@ -116,6 +119,7 @@ pub fn run(case: &Term) -> Term {
         .map(|i| interp.save_context(CtxData { id: i as i64 + 1, dropped: flags[i].clone() }))
         .collect();
     let mut out = Vec::new();
+    let mut extra: Option<Term> = None;
     for o in case.as_list() {
         match o.nth(0).as_str() {
             "add" => {
@@ -136,6 +140,17 @@ pub fn run(case: &Term) -> Term {
             "proc" => {
                 let _ = interp.eval(&list_cmd(&["proc", o.nth(1).as_str(), "", "return P"]));
             }
+            "badproc" => {
+                let _ = interp.eval(&list_cmd(&["proc", o.nth(1).as_str(), "{}", "return P"]));
+            }
+            "selfdef" => {
+                let n = list_cmd(&[o.nth(1).as_str()]);
+                let _ = interp.eval(&list_cmd(&["proc", o.nth(1).as_str(), "", &format!("proc {} {{}} {{return P}}; return Q", n)]));
+                extra = Some(match interp.eval(&format!("{}; {}", n, n)) {
+                    Ok(v) => ts(v.as_str()),
+                    Err(_) => ts("<error>"),
+                });
+            }
             "rename" => {
                 let _ = interp.eval(&list_cmd(&["rename", o.nth(1).as_str(), o.nth(2).as_str()]));
             }
@@ -143,7 +158,13 @@ pub fn run(case: &Term) -> Term {
                 let _ = interp.eval(&list_cmd(&["rename", o.nth(1).as_str(), ""]));
             }
         }
-        out.push(observe(&mut interp, &flags));
+        let mut ob = observe(&mut interp, &flags);
+        if let Some(e) = extra.take() {
+            let mut parts = ob.as_list().to_vec();
+            parts.push(e);
+            ob = tl(parts);
+        }
+        out.push(ob);
     }
     tl(out)
 }
